@@ -122,6 +122,22 @@ def gen_arith(c):
             put({"op": "fp12_" + op, "a": A}, grp="tower", expect=list(R.fp12_to_bytes(R.fp12_frobenius(a, kk))))
         e = rng.choice([0, 1, 2, 3, N - 3, N - 2, rng.randrange(N - 1)])          # sm9_z256_fp12_pow requires an exponent below N-1
         put({"op": "fp12_pow", "a": A, "k": i2b(e)}, grp="tower", expect=list(R.fp12_to_bytes(R.fp12_pow(a, e))))
+    # exponent shapes for every exponentiation route (zero limbs below a non-zero one, limb-edge bits, all-ones limbs, repeated nibbles), as in C13
+    M64 = (1 << 64) - 1
+    def shapes(mod):
+        e0 = rng.randrange(mod)
+        return [x % mod for x in [1 << 64, (1 << 64) + 1, 5 << 64, 1 << 128, (1 << 128) + 3, 1 << 192, (1 << 192) + (1 << 64), 1 << 63, 1 << 127, 1 << 191, M64 << 64, M64 << 128, (M64 << 128) | M64,
+                                  int("1" * 64, 16), int("f0" * 32, 16), int("8" + "0" * 62 + "1", 16)] + [e0 & ~(M64 << (64 * z)) for z in range(4)] + [e0 & (M64 << (64 * z)) for z in range(1, 4)]]
+    a12 = r12()
+    A12 = R.fp12_to_bytes(a12)
+    for e in shapes(N - 1)[: (10 if q else 99)]:
+        put({"op": "fp12_pow", "a": A12, "k": i2b(e)}, grp="tower", expect=list(R.fp12_to_bytes(R.fp12_pow(a12, e))))
+    for e in shapes(p)[: (10 if q else 99)]:
+        x = rng.randrange(2, p)
+        put({"op": "modp_mont_pow", "a": i2b(x), "b": i2b(e)}, grp="z", expect=W.limbs(pow(x * pow(R256, -1, p), e, p) * R256 % p))
+    for e in shapes(N)[: (10 if q else 99)]:
+        x = rng.randrange(2, N)
+        put({"op": "modn_pow", "a": i2b(x), "b": i2b(e)}, grp="z", expect=W.limbs(pow(x, e, N)))
     # sparse tower elements (one non-zero coordinate, the special-cased branches of inversion / squaring / multiplication): every position, several values
     Z2, Z4 = (0, 0), ((0, 0), (0, 0))
     for x in [1, 2, 3, p - 1, rng.randrange(2, p)] + ([] if q else [rng.randrange(2, p) for _ in range(6)]):
@@ -195,7 +211,8 @@ def gen_arith(c):
                 put(dict({"op": "point_add", "P": o1(P1), "Q": o1(P2)}, **lam), grp="g1", **ptcase(P1, P2))
                 put(dict({"op": "point_sub", "P": o1(P1), "Q": o1(P2)}, **lam), grp="g1", **ptcase(P1, R.g1_neg(P2)))
             put({"op": "point_equ", "P": o1(P1), "Q": o1(P2)}, grp="g1", expectbool=False)
-    ks = [0, 1, 2, 3, N - 2, N - 1, N, N + 1, R256 - 1, 1 << 255, (1 << 128) - 1, int("aa" * 32, 16), int("55" * 32, 16)] + [rng.randrange(R256) for _ in range(3 if q else 40)]
+    ks_shapes = shapes(N)
+    ks = ks_shapes[: (6 if q else 99)] + [0, 1, 2, 3, N - 2, N - 1, N, N + 1, R256 - 1, 1 << 255, (1 << 128) - 1, int("aa" * 32, 16), int("55" * 32, 16)] + [rng.randrange(R256) for _ in range(3 if q else 40)]
 
     def exp1(Q):
         d = {"einf": 1 if Q is None else 0, "expect": list(o1(Q))}
